@@ -10,7 +10,9 @@ prints every case.  The driver converts each case to Python values, calls the re
 InteractionsEncoder(terms).encode(...) - twice on the same encoder, and once more on an encoder object that
 lives across cases (so it has served dense, sparse and string-valued inputs before) - and compares.  Every case is replayed
 with plain ints in list / dict containers and a second time in another rendering of the same abstract input
-(prime p fed as the float p/2, tuple / LazyDense / HashableDense, LazySparse / HashableSparse)."""
+(prime p fed as the float p/2, tuple / LazyDense / HashableDense, LazySparse / HashableSparse).
+Mappings are built in the order the spec lists their entries, which for the spec's `Shuffled` values is NOT the ascending order
+of the keys ({'v': 2, 'u': 3}, {6: 2, 5: 3}); the spec's `Long` vectors have twelve positions (position names "0".."11")."""
 import json, re, collections.abc
 from .. import tlc, tracecheck
 
@@ -74,6 +76,18 @@ def describe(case, rend):
 def n_features(val):
     t = val["t"]
     return 0 if t in ("absent", "none") else 1 if t == "scalar" else len(val["v"] or [])
+
+
+def shape_class(case):
+    """coverage counters only: does the case hold a mapping whose keys are not ascending / a vector with two-digit positions"""
+    out = set()
+    for n in ("x", "a"):
+        v = case[n]; es = v["v"] or []
+        if v["t"] == "seq" and len(es) > 10: out.add("long_vector")
+        if v["t"] in ("map", "imap"):
+            ks = [(int(e["k"]) if v["t"] == "imap" else e["k"]) for e in es]
+            if ks != sorted(ks): out.add("keys_not_ascending")
+    return out
 
 
 def input_class(case):
@@ -186,7 +200,7 @@ def chunks(ctx):
 
 def run(ctx):
     from coba.encodings import InteractionsEncoder
-    total = 0; n = 0; hit = {"dense": 0, "sparse": 0, "either": 0}; nmono = 0
+    total = 0; n = 0; hit = {"dense": 0, "sparse": 0, "either": 0}; nmono = 0; shapes = {"keys_not_ascending": 0, "long_vector": 0}
     for name, sub in chunks(ctx):
         cfg = tracecheck._cfg("Interactions.cfg", sub, ctx.scratch, "inter_%s.cfg" % name)
         r = tlc.run("Interactions", cfg, ctx.scratch, workers=16, timeout=1500, heap="12g", seed=ctx.seed)
@@ -207,6 +221,7 @@ def run(ctx):
             key = "%s|%s|%s" % (",".join(map(str, py_terms(c["terms"]))), short(c["x"]), short(c["a"]))
             ctx.case(key)
             hit[c["mode"]] += 1; nmono += len(c["sparse"] or [])
+            for sc in shape_class(c): shapes[sc] += 1
             k = n + ctx.seed
             rends = [(False, "list", "dict"), (True, SEQ_KINDS[1 + k % 3], MAP_KINDS[1 + k % 2])]
             for rend in rends:
@@ -220,10 +235,13 @@ def run(ctx):
     ctx.traces += total
     ctx.extra["cases_by_expected_form"] = hit
     ctx.extra["monomials_compared"] = nmono
+    ctx.extra["cases_by_input_shape"] = shapes
+    if not all(shapes.values()): raise RuntimeError("no case with shuffled mapping keys / a long vector was generated: %r" % shapes)
     ctx.assumptions += [
         "feature names in the mapping form are ns + position/key (+ the string for a string-valued feature), as in the repository's own tests; the order of the names inside a key is not checked, the key of the constant is not checked (only that exactly one extra entry carries its value)",
         "mapping keys and string values never contain the namespace letters 'x' / 'a' (keys are split at those letters); no empty-string values; no two features of a case have the same name",
         "terms are x^i a^j, written with each namespace's letters adjacent ('xxa', 'axx') in the first rendering and interleaved ('xax', 'xaax') in the second; namespaces are crossed in order of first appearance; no term list contains the same term (or two spellings of the same monomial set) twice",
+        "mappings list their entries in insertion order, ascending by key or not (reversed and two other orders); vectors have up to MaxLen positions, and twelve for terms of degree <= 2",
         "numeric constants are positive; several constants add up to one constant feature (test_dense_x_a_with_const)",
         "values are small distinct primes, one optional 0, and the same divided by two as floats: all products are exact, floating-point rounding is not explored",
         "when the only sparse-typed namespace is one that no term names, either output form is accepted",
